@@ -4,7 +4,7 @@ CONSTANTS
     MaxCerts = 2
     PerBagLegacy = 4
     PerBagGov = 2
-    FlagEvery = 6
+    FlagEvery = 8
 INIT Init
 NEXT Next
 INVARIANT VariantSane
@@ -14,5 +14,6 @@ INVARIANT OneSideBreaks
 INVARIANT CertAlgebra
 INVARIANT Signs
 INVARIANT EraShape
+INVARIANT PoolHistory
 INVARIANT FlagIrrelevant
 INVARIANT FlagTwin
